@@ -445,7 +445,7 @@ class PropertyCheck:
             # one VIOLATION line per failing function (first failing obligation of each)
             seen = set()
             n = 0
-            for v in self.violations:
+            for v in sorted(self.violations, key=lambda v: v["native_input"] is None):
                 if v["function"] in seen:
                     continue
                 seen.add(v["function"])
